@@ -41,7 +41,10 @@ fn main() {
         }
     }
     // Quiet panics: they are captured and reported as outputs.
-    std::panic::set_hook(Box::new(|_| {}));
+    // (A10H_PANICS=1 shows them, for debugging the harness itself)
+    if std::env::var_os("A10H_PANICS").is_none() {
+        std::panic::set_hook(Box::new(|_| {}));
+    }
     std::fs::create_dir_all(&a.out).unwrap();
     let _ = util::main_stack();
     let code = comp::run(&a);
